@@ -331,16 +331,33 @@ def gen_scalar(rng):
     return float(rng.standard_normal()), 'float'
 
 
+def rand_dipolar_chinfo(ctx, rng):
+    """DipolarChargeInfo over 1-2 charges and 1-3 dipole moments of them (any direction, dipoles of any of the charges)."""
+    from tenpy.linalg import charges
+    nq = int(rng.integers(1, 3))
+    qmods = [int(rng.choice([1, 1, 2, 3, 4])) for _ in range(nq)]
+    nd = int(rng.integers(1, 4))
+    c_idx = [int(rng.integers(nq)) for _ in range(nd)]
+    d_mods = [qmods[c] for c in c_idx]
+    d_dims = [int(rng.integers(0, 3)) if m != 1 else 0 for m in d_mods]
+    names = ['q%d' % j for j in range(nq)] + ['p%d' % j for j in range(nd)] if rng.random() < 0.7 else None
+    ci = charges.DipolarChargeInfo(qmods + d_mods, names, c_idx, list(range(nq, nq + nd)), d_dims)
+    ctx.count('gen.dipolar_chinfo')
+    if d_dims != c_idx:
+        ctx.count('gen.dipolar_chinfo_dims_differ_from_charge_idcs')
+    return ci
+
+
 def gen_tenpy(ctx, rng):
     """(object, kind, observables function or None)"""
     from tenpy.linalg import np_conserved as npc, charges
     from vf import gen, dense
     k = int(rng.integers(0, 15))
     if k == 0:
-        ci = gen.rand_chinfo(rng)
+        ci = gen.rand_chinfo(rng) if rng.random() < 0.5 else rand_dipolar_chinfo(ctx, rng)
         return ci, 'ChargeInfo'
     if k in (1, 2):
-        ci = gen.rand_chinfo(rng)
+        ci = gen.rand_chinfo(rng) if rng.random() < 0.8 else rand_dipolar_chinfo(ctx, rng)
         leg, kind = gen.rand_leg(rng, ci)
         if rng.random() < 0.3:
             leg = leg.bunch()[1] if rng.random() < 0.5 else leg.sort()[1]
